@@ -178,6 +178,21 @@ CHECKS = {
         technique="TLA+ registry state machine (TLC) + state-graph replay through the real loop; set-ups judged by TLC",
         design="4/C19",
     ),
+    "C03": dict(
+        specs=["StructuredR.tla", "Structured.tla", "StructuredIO.tla"],
+        text="StructuredR gives layout and reference decoding of transform programs (16 opcodes, BUILD kinds, argument steps), "
+        "recover programs, execute lists, inject transforms, section tables, pivot frames and the BeaconGate grouping. "
+        "Structured.tla runs the program decoder as a position machine over every program of <= 3 steps and TLC checks it "
+        "decodes exactly what was encoded and consumes the program; for BeaconGate TLC checks Expand(Groups(v)) = v and "
+        "canonicity for all vectors within two flips of a union of groups (quick) or all 2^23 (thorough). TLC-rendered encodings "
+        "are embedded in configuration blocks and the library's human-readable values compared; random programs with arguments "
+        "to 300 bytes and random flag vectors are decoded by the library and judged by TLC; strings, digests, IPv4 and derived "
+        "values (domains/URIs/protocol/port/kill date/watermark/trial) are compared with their format definitions.",
+        note="Trusted: TLC, StructuredR, harness formatting of the library's textual forms ('0x..-0x..', 'Name \"mod!fn+0x..\"'), hashlib. "
+        "Only well-formed encodings; malformed ones are C08.",
+        technique="TLA+ decoder position machine + BeaconGate grouping model-checked by TLC; TLC-rendered encodings replayed; decodings judged by TLC",
+        design="4/C03",
+    ),
 }
 
 NOT_YET = "check not built yet in this round; planned in DESIGN.md section 4"
